@@ -79,7 +79,7 @@ ADDED = {
   "C05": " Records may lack a trailing line break; in the background-rotation build a panic of the rotation thread is a violation. The appender may be built by the rolling_file deserializer (append left out when it is the default).",
   "C06": " Messages may start with char arguments. Limits no file can reach (2^63 .. u64::MAX) never roll.",
   "C07": " Futile roll attempts (nothing / a directory at the rolled path) lose no archive. Patterns with '..' after a symbolic link or a two-component variable, relative patterns, a change of working directory between rolls. The rolled file may be a symbolic link (its target is a bystander, nothing may remain at the path); windows of 33-70 slots; bystanders whose names merely look like an index. A futile roll with nothing at the rolled path is asserted for compressing rollers too.",
-  "C08": " The top slot's chunk is retained when the slot below is vacant. Further faults: a roller that archives the file and then reports a failure; an obstacle directory at the only archive name of a compressing pattern; the archive on a full device (name linked to /dev/full, compressing patterns, window of one) - the error arrives only in the encoder's final flush.",
+  "C08": " The top slot's chunk is retained when the slot below is vacant. Further faults: a roller that archives the file and then reports a failure; an obstacle directory at the only archive name of a compressing pattern; the archive on a full device (name linked to /dev/full, compressing patterns, window of one) - the error arrives only in the encoder's final flush. Patterns with long directory names outside ASCII (2- and 3-byte characters).",
   "C09": " Long date formats (rendered dates of 100-400 bytes); the default date format under zones west of Greenwich with fractional offsets. Record texts of 4/8/16/64 KiB in one piece; module path and file as &'static str (backslashes, quotes, controls); short multi-byte literal messages. Part deep-nesting: 1-1500 plain and highlight groups nested around {m} (thread with a 1 GiB stack). Date formats may be the bare words utc and local.",
   "C10": " Maximum widths that do not fit 32 bits; literal messages with far more bytes than characters.",
   "C11": " Widths up to 262 144 are encoded; malformed MDC defaults among the breakers. Semantic errors inside groups (with and without a maximum width) must leave what precedes them in the group rendered. A panic raised and caught again inside the library counts as a panic (per-thread panic-hook counter); part broken-stderr: broken patterns constructed and encoded in a child whose stderr is a pipe nobody reads.",
